@@ -50,25 +50,26 @@ func (f Fault) String() string {
 // XRec is what one exchange observed. It is written only by the goroutine that
 // performs the exchange and read only after the run.
 type XRec struct {
-	Begun      bool
-	TBegin     time.Time
-	Method     string
-	Returned   bool // RoundTrip returned (response or error)
-	TReturn    time.Time
-	Outcome    string // "response" | "conn_error" | "ctx_done" | "panic"
-	Status     int
-	BodyLen    int64 // bytes the body could provide (-1 endless)
-	BodyRead   int64 // bytes handed out
-	BodyEnd    bool  // EOF or error reported to the reader
-	TBodyEnd   time.Time
-	BodyErr    string
-	Closed     bool
-	TClosed    time.Time
-	Redirected bool
-	Unbounded  bool // reader consumed beyond the guard
-	Served     any  // content descriptor written by Serve (e.g. *OCSPServed)
-	CallerID   int
-	ReqInfo    any // decoded request info (kept across a redirect hop)
+	Begun         bool
+	TBegin        time.Time
+	Method        string
+	Returned      bool // RoundTrip returned (response or error)
+	TReturn       time.Time
+	Outcome       string // "response" | "conn_error" | "ctx_done" | "panic"
+	Status        int
+	BodyLen       int64 // bytes the body could provide (-1 endless)
+	BodyRead      int64 // bytes handed out
+	BodyEnd       bool  // EOF or error reported to the reader
+	TBodyEnd      time.Time
+	BodyErr       string
+	Closed        bool
+	TClosed       time.Time
+	Redirected    bool
+	Unbounded     bool // reader consumed beyond the guard
+	Served        any  // content descriptor written by Serve (e.g. *OCSPServed)
+	CallerID      int
+	ReqInfo       any  // decoded request info (kept across a redirect hop)
+	CancelledHere bool // the context was cancelled when this body was closed
 }
 
 // Exchange is one planned HTTP exchange (a slot).
@@ -82,9 +83,10 @@ type Exchange struct {
 	Latency time.Duration
 	Fault   Fault
 	// Serve produces the honest-or-Byzantine content at the delivery instant.
-	Serve   func(x *Exchange, req *http.Request, reqBody []byte, now time.Time) (body []byte, contentType string)
-	ReadCap int64 // size cap the library is expected to honour for this kind
-	Rec     XRec
+	Serve         func(x *Exchange, req *http.Request, reqBody []byte, now time.Time) (body []byte, contentType string)
+	ReadCap       int64 // size cap the library is expected to honour for this kind
+	CancelOnClose bool  // the caller's context is cancelled when the library closes this body
+	Rec           XRec
 }
 
 type slotList struct {
@@ -117,6 +119,10 @@ type Net struct {
 	Unplanned    []UnplannedRec
 	redirects    map[string]*Exchange
 	PanicValue   any
+	// OnClose is called (by the goroutine performing the exchange) when the
+	// library closes a response body: the hook for "cancel exactly at this
+	// exchange boundary".
+	OnClose func(x *Exchange)
 }
 
 type UnplannedRec struct {
@@ -264,7 +270,7 @@ func (n *Net) respond(x *Exchange, req *http.Request, reqBody []byte, f Fault) (
 	if ct != "" {
 		hdr.Set("Content-Type", ct)
 	}
-	b := &simBody{x: x, ctx: req.Context(), data: body, cap: x.ReadCap}
+	b := &simBody{x: x, ctx: req.Context(), data: body, cap: x.ReadCap, net: n}
 	switch f.Kind {
 	case FStatus:
 		status = f.Param
@@ -354,6 +360,7 @@ type simBody struct {
 	stall     time.Duration
 	stalled   bool
 	cap       int64
+	net       *Net
 }
 
 const unboundedSlack = 1 << 20
@@ -428,6 +435,9 @@ func (b *simBody) Close() error {
 	if !b.x.Rec.Closed {
 		b.x.Rec.Closed = true
 		b.x.Rec.TClosed = time.Now()
+		if b.net != nil && b.net.OnClose != nil {
+			b.net.OnClose(b.x)
+		}
 	}
 	return nil
 }
